@@ -123,6 +123,14 @@ Theorem C19_clean_within_limits : forall cl nl d,
 Proof. exact clean_within_limits. Qed.
 Print Assumptions C19_clean_within_limits.
 
+(* One clean() call: BOTH classes end within their limits when enough removable blobs exist for each at the moment its
+   pass runs (the network pass always runs, on the state the content pass left). *)
+Theorem C19_clean_reaches_both : forall cl nl d, tables_ok d -> cl <> 0%Z -> enough false cl d ->
+  enough true nl (snd (clean_pass false cl d)) ->
+  (Z.of_N (used_mb false (snd (clean cl nl d))) <= cl)%Z /\ (Z.of_N (used_mb true (snd (clean cl nl d))) <= nl)%Z.
+Proof. exact clean_reaches_both. Qed.
+Print Assumptions C19_clean_reaches_both.
+
 (* No pass ever increases the usage of either class. *)
 Theorem C19_usage_never_increases : forall net net' limit d,
   used_mb net' (snd (clean_pass net limit d)) <= used_mb net' d.
